@@ -343,7 +343,11 @@ CLAIMED["C07"] = {
     "between the returned prime-prior bounds (same support; the map is "
     "affine, so the uniform prime prior is the prior over a constant "
     "Jacobian); NullReparameterisation (identity on its parameters, other "
-    "fields and the log-Jacobian untouched); "
+    "fields and the log-Jacobian untouched); CombinedReparameterisation."
+    "reparameterise / inverse_reparameterise over two abstract members on "
+    "disjoint parameters (each applied exactly once for either value of "
+    "reverse_order, both log-Jacobians added to the running value, the "
+    "inverse in the opposite order); "
     "the prime prior: log_uniform_prior is the log-indicator of "
     "[xmin, xmax] and RescaleToBounds.x_prime_log_prior is the product of "
     "the per-parameter uniform priors (support = the box of prime bounds; "
@@ -355,7 +359,8 @@ CLAIMED["C07"] = {
     "offset), pre-rescaling, "
     "inversion (split / duplicate), update_bounds, the prime bounds under "
     "inversion, Angle, "
-    "ToCartesian, AnglePair, CombinedReparameterisation, "
+    "ToCartesian, AnglePair, CombinedReparameterisation's update / prior "
+    "methods and its order checks, "
     "FlowProposal.rescale, all GW reparameterisations, logit with eps "
     "(clipping is not a bijection), behaviour at the bounds and floating-"
     "point closeness. Domain = where the map is regular (open interval "
